@@ -35,7 +35,7 @@ def run_one(k, patch, prop, tier, head, extra_env):
     try:
         a = sh("git -C %s apply --whitespace=nowarn %s" % (wt, patch))
         if a.returncode:
-            a = sh("cd %s && patch -p1 -s < %s" % (wt, patch))
+            a = sh("cd %s && patch -p1 -s --fuzz=0 < %s" % (wt, patch))
         if a.returncode:
             return {"patch": patch, "prop": prop, "rc": None, "note": "does not apply: " + (a.stderr or a.stdout)[-300:]}
         env = dict(os.environ, VERIF_REPO=wt, **extra_env)
